@@ -53,6 +53,14 @@ func reportStrategy(name string, n []int, f []float64) (strategy.Strategy, strin
 			}
 			subs = append(subs, ctor(defaultNs[p], defaultFs[p]))
 		}
+		if strings.HasPrefix(wrap, "StopLossP") {
+			// a Stop-Loss with an explicit percentage: "StopLossP2.5:Macd" (1 and more = a stop at or below zero: never reached)
+			pct, err := strconv.ParseFloat(strings.TrimPrefix(wrap, "StopLossP"), 64)
+			if err != nil {
+				return nil, "ERR bad-percentage"
+			}
+			return decorator.NewStopLossStrategy(subs[0], pct), ""
+		}
 		switch wrap {
 		case "Inverse":
 			return decorator.NewInverseStrategy(subs[0]), ""
